@@ -814,10 +814,10 @@ def correspondence(ctx):
                      + ("clamped (repaired)" if clamp else "pinned (upper-plane segments visit no cell)"))
     dis, hist, samples = [], {}, []
     t = ctx.thorough
-    n1, d1 = corr_dipole(ctx, 420 if t else 105, dis, hist, samples, clamp)
-    n2, d2 = corr_point(ctx, 200 if t else 40, dis, hist, samples)
-    n3, d3 = corr_gsf(ctx, 160 if t else 40, dis, hist, samples, clamp)
-    n4, d4 = corr_conv(ctx, 400 if t else 75, dis, hist, samples)
+    n1, d1 = corr_dipole(ctx, 315 if t else 105, dis, hist, samples, clamp)
+    n2, d2 = corr_point(ctx, 160 if t else 40, dis, hist, samples)
+    n3, d3 = corr_gsf(ctx, 120 if t else 40, dis, hist, samples, clamp)
+    n4, d4 = corr_conv(ctx, 300 if t else 75, dis, hist, samples)
     return {
         'evaluations': n1 + n2 + n3 + n4,
         'distinct_nontrivial': d1 + d2 + d3 + d4,
@@ -881,6 +881,9 @@ def check_dipole_property(g, pts):
     except RuntimeWarning as e:
         return {'signature': 'dipole vector needed the run-time re-normalisation',
                 'observed': str(e)}
+    except Exception as e:      # noqa  (electrodes are inside the grid and distinct by construction)
+        return {'signature': 'dipole/wire inside the grid is rejected or crashes',
+                'observed': f"{type(e).__name__}: {e}"[:160]}
     fs = [np.array(vf.fx), np.array(vf.fy), np.array(vf.fz)]
     scale = max(1.0, max(abs(x) for p in pts for x in p))
     for c in range(3):
@@ -982,7 +985,7 @@ def check_conv_property(c):
 def search(ctx, broken):
     rng = ctx.rng
     hits = []
-    n = 400 if ctx.thorough else 150
+    n = 300 if ctx.thorough else 150
     counts = {'dipole': 0, 'point': 0, 'scaling': 0, 'conv': 0}
     for i in range(n):
         g = gen_grid(rng, True)
